@@ -183,8 +183,8 @@ class _PackedBoolArray:
                 raise ValueError("Shape mismatch with array size.")
             if shape[-1] % 8 != 0:
                 raise ValueError("Final shape index must be a multiple of 8.")
-            if axis == 0:
-                raise NotImplementedError("axis=0 is not supported for summation.")
+            if axis is not None and axis != len(shape) - 1:
+                raise NotImplementedError("Only axis=None and the last axis are supported for summation.")
 
             new_shape = list(shape)
             new_shape[-1] //= 8
